@@ -40,6 +40,10 @@ CLAIMED = {
          "Obs.__init__ is modelled with each of its rejections as a branch (Obs/WF.v) and proved to reject every request with a length mismatch, non-string or duplicate names, several ensembles, fewer than five samples, unsorted or duplicate configuration numbers, and to store accepted lists strictly increasing and as a range exactly when equally spaced. The isinstance chains of the arithmetic dunders are regenerated from class Obs and closure (result is a real or a complex observable for Obs / real / complex / CObs partners in both operand orders) is re-proved over the table. "
          "The structure of every object produced by random sequences of public operations (arithmetic, functions, reweight, correlate, merge_obs, cov_Obs, json / dobs / pickle / jackknife round trips, fits, roots) is extracted and judged by the boolean well-formedness predicate inside Coq; constructor requests (valid and malformed) are compared with the model.",
          "partial: preservation of well-formedness by the model of derived_observable is decided per generated case by evaluating wfb (C01's merge theorems give sortedness of the merged configuration lists for all inputs), not by a separate induction over operation sequences; covariance-input validation (eigenvalues) is LAPACK's and only its four rejection kinds are exercised.", "§3 C04"),
+ "C05": ("proof", "Coq refinement theorem (positions selected by the intersection = requested configuration numbers, all strictly increasing lists) over a hand model of reweight / correlate / merge_obs + in-Coq correspondence against model and lookup-based specification",
+         "_reduce_deltas (np.intersect1d positions and both shortcuts), reweight (both normalisations), correlate and merge_obs are transcribed (Obs/Pairing.v); it is proved for all strictly increasing configuration lists and all subset requests that the selected rows are exactly the fluctuations stored under the requested configuration numbers, that an unmeasured configuration is rejected, and that the reweighted flag is set. "
+         "The specification pairs samples through finite-map lookup by configuration number; the implementation (function, Obs method and Corr method) is run on weights / observables on prefix, suffix, stride and random subsets and replica subsets, on malformed requests, and on replica partitions for merge_obs, and Coq decides agreement with model and specification exactly.",
+         "the division <w o>/<w> itself is C01's derived_observable model; Obs.__init__'s list->range normalisation is modelled by norm_idl.", "§3 C05"),
 }
 NOT_YET = "check not built yet in this session (work in progress; see DESIGN.md §6 for the order of work)"
 
